@@ -49,7 +49,12 @@ def site_key(entry, s):
     det = ""
     if "index" in s and isinstance(s["index"], T):
         det = "index=%s" % (s["index"].val if s["index"].is_const() else "var")
-    elif kind.startswith("assert:overflow") or kind.startswith("slice:"):
+    elif kind.startswith("slice:"):
+        # which container: the bound operand (its length), with run-specific numbering removed
+        c = s["cond"]
+        bound = c.args[1] if c.op in ("ult", "ule") else c.args[0]
+        det = c.op + ":" + re.sub(r"\d+", "", tm.show(bound))[:60]
+    elif kind.startswith("assert:overflow"):
         c = s["cond"]
         det = c.op
     return "%s/%s/%s" % (fn, kind, det)
@@ -63,6 +68,9 @@ def run(chk):
     chk.rule("EOF", "a loop consuming an opaque read leaves when the read returns 0")
     reviewed = load_reviewed()
     inv = {}
+    from . import tapeinv
+    tinv_methods = set(tapeinv.window_methods(prog))
+    n_tinv, n_lia = [0], [0]
 
     def collect(entry, rs, ignore_budget=False):
         for r in rs:
@@ -72,6 +80,21 @@ def run(chk):
                 chk.undecided_("INVENTORY/%s/exploration" % entry, "exploration of %s failed: %s %s" % (entry, r.outcome, r.detail))
                 continue
             for s in r.sites:
+                if s.get("fn") in tinv_methods:
+                    # obligation (a) of T-INV: every assert / bound of the window methods is implied by the
+                    # (inductive) window invariant — proved below from *every* state satisfying it
+                    n_tinv[0] += 1
+                    continue
+                c = s.get("cond")
+                nb = s.get("nfacts_before")
+                if isinstance(c, T) and nb is not None:
+                    before = dict(list(r.facts.items())[:nb])
+                    try:
+                        if tapeinv._prove_bool(before, [], c, s.get("expected", 1)):
+                            n_lia[0] += 1      # implied by the comparisons between symbolic values that dominate it
+                            continue
+                    except Exception:
+                        pass
                 inv.setdefault(site_key(entry, s), []).append((entry, s, r))
             if r.outcome == "panic":
                 d = r.detail
@@ -188,10 +211,15 @@ def run(chk):
     unused = sorted(set(reviewed) - set(inv))
     chk.count("sites-reviewed", n_rev)
     chk.count("sites-total", len(inv))
+    chk.count("sites-left-to-window-invariant", n_tinv[0])
+    chk.count("sites-discharged-by-linear-facts", n_lia[0])
     chk.floor("entries", 14)
     chk.floor("paths", 300)
     chk.observe("reviewed entries not needed on this tree (site discharged or gone): %s" % unused)
     chk.sample({"sites": sorted(inv)[:12], "reviewed": n_rev})
+    # block framing / window invariant of the TAP reader (shared rule, rules/tapeinv.py)
+    chk.rule("T-INV", "Tap window invariant: inductive over every writer and every exit; asserts and bounds implied; headers read only at block ends")
+    tapeinv.run(chk, prog)
     return chk.finish(EXPL)
 
 
